@@ -9,7 +9,7 @@
    it has not, SchedX/XF4Refuted.v compiles instead and exhibits the violation. *)
 From Coq Require Import List NArith Bool.
 From LBZ Require Import Gen.Consts SchedX.XState Gen.SchedXTab SchedX.XSet SchedX.XModel SchedX.XInvDefs
-  SchedX.XF4 SchedX.XC10.
+  SchedX.XF4 SchedX.XOracle SchedX.XSeq SchedX.XC10.
 Import ListNotations.
 Local Open Scope N_scope.
 
@@ -30,8 +30,50 @@ Theorem C10_one_master :
     (b2n (x_parse_token st) + nparse st + length (filter (jm (x_unords st)) (all_jobs st)) <= 1)%nat.
 Proof. exact C10_one_master_gen. Qed.
 
+(* The property.  [O] holds the unlocked computations as functions of the stream and
+   a bit position (parser, retrieve/decode for EVERY position, emit); the scanner has
+   no oracle: scan events are unconstrained, so the statement holds for every scanner.
+   [SeqDec O 0 0 L R]: the sequential decoding (parser, block at the parser's position,
+   parser from the end of that block, ...) hands the buffers L to the writer and succeeds
+   iff R.  For every worker count, slot configuration, input fragmentation and
+   interleaving, every run whose labels are consistent with O satisfies:
+   the buffers handed to the writer are a prefix of L; if the run fails, the sequential
+   decoding fails; if it terminates normally it has written exactly L and R = true
+   (hence: it fails exactly when the sequential decoding fails). *)
+Theorem C10_speculation_free :
+  forall (O : oracle) n tin tout ultra st L R,
+    oreach O gen_cfg (init_state n tin tout ultra) st -> SeqDec O 0 0 L R ->
+    (exists l', L = x_written st ++ l') /\
+    (x_failed st <> None -> R = false) /\
+    (completed st -> x_written st = L /\ R = true).
+Proof. exact C10_speculation_free_gen. Qed.
+
 (* non-vacuity: the scenario of finding F4 runs in the model up to the critical
    event; with the test in place the stale job is dropped instead of re-queued *)
 Example C10_example_f4_scenario_repaired :
   exists st, run gen_cfg f4_init f4_events = Some st /\ retr_inv st = true /\ x_work_units st = 1.
 Proof. eexists. split; [vm_compute; reflexivity|split; vm_compute; reflexivity]. Qed.
+
+(* non-vacuity of C10_speculation_free: a stream on which the parser reports end of input
+   at once; the sequential decoding writes nothing and succeeds, and so does the run *)
+Definition O_empty : oracle :=
+  mkoracle (fun _ _ => HFinish false) (fun _ => dbs0) (fun _ => 0) (fun _ => 0) (fun _ => 0) (fun _ _ => 0) (fun _ _ => 0).
+
+Example C10_example_empty_stream :
+  SeqDec O_empty 0 0 [] true /\
+  exists st, oreach O_empty gen_cfg (init_state 2 8 32 false) st /\ completed st /\ x_written st = [].
+Proof.
+  split; [exact (SD_finish O_empty 0 0 false eq_refl)|].
+  eexists. split.
+  - eapply (oreach_step O_empty gen_cfg _ _ (EvParse1 (Some 0) (PFinish (mkdbs 16 1) 0)) _).
+    + eapply (oreach_step O_empty gen_cfg _ _ EvParse0 _).
+      * eapply (oreach_step O_empty gen_cfg _ _ EvEof _).
+        -- eapply (oreach_step O_empty gen_cfg _ _ (EvInput 2 0) _); [apply oreach_init|exact I|vm_compute; reflexivity].
+        -- exact I.
+        -- vm_compute; reflexivity.
+      * exact I.
+      * vm_compute; reflexivity.
+    + vm_compute. reflexivity.
+    + vm_compute; reflexivity.
+  - vm_compute. repeat split; reflexivity.
+Qed.
